@@ -48,12 +48,12 @@ func TimestampFromOOBData(oob []byte) (time.Time, error) {
 				var ts time.Time
 				if sec2 != 0 || nsec2 != 0 {
 					if sec0 != 0 || nsec0 != 0 || sec1 != 0 || nsec1 != 0 {
-						panic("unexpected timestamping behavior")
+						return time.Time{}, errUnexpectedData
 					}
 					ts = time.Unix(sec2, nsec2).UTC()
 				} else {
 					if sec1 != 0 || nsec1 != 0 || sec2 != 0 || nsec2 != 0 {
-						panic("unexpected timestamping behavior")
+						return time.Time{}, errUnexpectedData
 					}
 					ts = time.Unix(sec0, nsec0).UTC()
 				}
@@ -65,6 +65,11 @@ func TimestampFromOOBData(oob []byte) (time.Time, error) {
 				ts := (*unix.Timespec)(unsafe.Pointer(&oob[unix.CmsgSpace(0)]))
 				return time.Unix(ts.Unix()).UTC(), nil
 			}
+		}
+		// this function also sees bytes from the network (SCION end-to-end
+		// option 253): the aligned length may exceed what is there
+		if unix.CmsgSpace(int(h.Len))-unix.CmsgSpace(0) > len(oob) {
+			return time.Time{}, errUnexpectedData
 		}
 		oob = oob[unix.CmsgSpace(int(h.Len))-unix.CmsgSpace(0):]
 	}
